@@ -172,6 +172,37 @@ def through_csv_writer(ns, res, case, ref, expected_header):
             res.violation('py:csv-first-line-is-not-header:' + common.feature_sig(case['q']), '[py] first CSV line %r, expected header %r for %s' % (first, expected_header, qtext), dict(case, engine='py', leg='csv'))
 
 
+def through_csv_reader(ns, res, case, ref, expected_header):
+    """The same table read from CSV text with a header line (column names as the file spells them: empty, with quotes, spaces, a tab) and written by the
+    width-enforcing CSV writer: it must not raise, and the first line is the header the naming rules give."""
+    if case['a_names'] is None or case['q'].get('with') or any(not isinstance(c, str) for r in case['A'] for c in r):
+        return
+    if any(len(r) != len(case['a_names']) for r in case['A']):
+        return
+    text_in = refcsv.write_table([list(case['a_names'])] + [list(r) for r in case['A']], ',', 'quoted_rfc', '\n')
+    if refcsv.read_text(text_in, ',', 'quoted_rfc', None, True).header != list(case['a_names']):
+        return      # names the dialect cannot carry (a leading BOM character, ...)
+    buf = io.StringIO(newline='')
+    w = ns.csv.CSVWriter(buf, False, None, ',', 'quoted_rfc')
+    it = ns.csv.CSVRecordIterator(io.StringIO(text_in, newline=''), None, ',', 'quoted_rfc', has_header=True)
+    reg = None
+    if case['B'] is not None:
+        reg = ns.engine.ListTableRegistry([ns.engine.ListTableInfo('b', [list(r) for r in case['B']], None if case['b_names'] is None else list(case['b_names'])), ns.engine.ListTableInfo('B', [list(r) for r in case['B']], None if case['b_names'] is None else list(case['b_names']))])
+    res.count('csv_reader_runs')
+    if case['a_names'] and case['a_names'][-1] == '':
+        res.count('csv_reader_runs_last_name_empty')
+    try:
+        ns.rbql.query(case['query_text'], it, w, [], reg, user_init_code=qast.INIT_PY)
+    except Exception as e:
+        res.violation('py:csv-reader-to-writer-rejects-header:' + common.feature_sig(case['q']), '[py] CSV text %r -> CSV writer raised %s: %s for %s' % (text_in, util.error_class(e), str(e)[:160], case['query_text']), dict(case, engine='py', leg='csv-reader'))
+        return
+    if expected_header:
+        r = refcsv.read_text(buf.getvalue(), ',', 'quoted_rfc')
+        first = r.records[0] if r.records else None
+        if first != [str(x) for x in expected_header]:
+            res.violation('py:csv-reader-first-line-is-not-header:' + common.feature_sig(case['q']), '[py] CSV text %r: first output line %r, expected header %r for %s' % (text_in, first, expected_header, case['query_text']), dict(case, engine='py', leg='csv-reader'))
+
+
 def through_pandas(ns, res, case, ref, expected_header):
     import pandas as pd
     A, B = case['A'], case['B']
@@ -294,6 +325,8 @@ def run_shard(spec, res):
                         through_pandas(ns, res, case, ref, ref.header)
                     if n % 4 == 2:
                         through_sqlite(ns, res, case, n)
+                    if n % 2 == 1:
+                        through_csv_reader(ns, res, case, ref, ref.header)
             if n % 2499 == 0:
                 res.sample({'query': case['query_text'], 'a_names': case['a_names'], 'b_names': case['b_names'], 'expected_header': ref.header, 'observed_header': o.header})
             js.add(case, ref, True)
@@ -305,7 +338,7 @@ def summarize(tier, seed, m):
     shapes = sorted(k[6:] for k in m['counters'] if k.startswith('shape:'))
     return {
         'rule': 'select lists of 1-4 items over fields in five spellings, stars, NR / NF / aNR / bNR, calls of user functions with commas and brackets inside arguments and string literals (f("x, y", [a1, 2, [1]]), g(...)[0]), literals that look like syntax, typed expressions, UNNEST, aliases written as / AS; families rotating over plain, quotients (a slash right after a closing bracket and another one in a later item), DISTINCT, DISTINCT COUNT, TOP, GROUP BY with aggregates, * EXCEPT, UPDATE, JOIN, JOIN + DISTINCT COUNT; rectangular tables; header / no header alternating. Each case: rbql.query with probes vs reference header names, icontract-armed query_table, CSV writer (every case) and query_pandas_dataframe (every 4th) which enforce the width; every 4th headed case also through SqliteRecordIterator / SqliteDbRegistry over a table holding the same data (plain, with a GENERATED column VIRTUAL or STORED, through a VIEW) into the CSV writer; JS leg. distinct_nontrivial = distinct (query, header names) that produced an output header.',
-        'required': ['py_cases', 'headers_observed', 'contract_evaluations', 'csv_writer_runs', 'pandas_runs', 'sqlite_runs:plain', 'sqlite_runs:generated', 'sqlite_runs:view', 'js_cases'],
+        'required': ['py_cases', 'headers_observed', 'contract_evaluations', 'csv_writer_runs', 'csv_reader_runs', 'csv_reader_runs_last_name_empty', 'pandas_runs', 'sqlite_runs:plain', 'sqlite_runs:generated', 'sqlite_runs:view', 'js_cases'],
         'extra': {'shapes_seen': shapes},
         'assumptions': ['rv/model/refsem.py header_names states the documented naming rule (DISTINCT COUNT: the count column is col1 and the following positional names count it)', 'parenthesised fields like (a1), mixed-case As, variable-width lists are outside the rule and not generated'],
     }
